@@ -165,7 +165,12 @@ impl AsyncFileSystem for AsyncOverlayFS {
         let write_path = self.write_path(path)?;
         if !write_path.exists().await? {
             self.ensure_has_parent(path).await?;
-            self.read_path(path).await?.copy_file(&write_path).await?;
+            let read_path = self.read_path(path).await?;
+            if read_path.metadata().await?.file_type != VfsFileType::File {
+                // do not copy up (and thereby shadow) a directory of a lower layer
+                return Err(VfsErrorKind::Other("Not a file".into()).into());
+            }
+            read_path.copy_file(&write_path).await?;
         }
         write_path.append_file().await
     }
